@@ -7,6 +7,7 @@ From GZ Require Import Lib.RollingWindow Lib.RollingWindowSpec Lib.RollingWindow
 From GZ Require Import C16.Model C16.ProofsMap C16.ProofsSeq C16.ProofsCache C16.ProofsCacheLru.
 From GZ Require Import C16.ModelW C16.ProofsW C16.ProofsWClamp.
 From GZ Require Import C16.Lin C16.ProofsLin C16.Check C16.ProofsExtra C16.ProofsRefW C16.ProofsHold.
+From GZ Require Import C16.ModelGate C16.ProofsGate.
 Import ListNotations.
 Open Scope Z_scope.
 
@@ -278,6 +279,52 @@ Example ex_cache :
   c_evictions (c_new 2) ex_c_ops = [[]; []; []; [2]; [1]; []] /\
   clru (c_final (c_new 2) ex_c_ops) = [3; 2].
 Proof. vm_compute. repeat split. Qed.
+
+(* Take is NOT one critical section: doGet ; (in the single flight) doGet again ; fetch() with the
+   cache unlocked ; Set.  ModelGate.c_take_held runs it with the operations [inner] of other
+   callers taking effect while fetch() is parked.  If none of them addresses k (Set / Get / Del /
+   Take / expiry of ANY other keys, any number, in any order, any limit - evictions included),
+   every observation and the final state are those of the sequential history "inner, then
+   Take k": the value loaded is stored and the next Take of k does not load.  (Executor kind
+   take_gate forces this schedule on the real code; prop_ok judges "inner, Take k".) *)
+Theorem cache_take_held_is_take_after : forall c k f inner,
+  alookup k (cdata c) = None ->
+  Forall (fun o => cop_key o <> k) inner ->
+  let '(c', r, rs) := c_take_held c k f inner in
+  c_run c (inner ++ [CTake k f]) = rs ++ [r] /\ c_final c (inner ++ [CTake k f]) = c'.
+Proof. exact take_held_is_take_after_proof. Qed.
+Print Assumptions cache_take_held_is_take_after.
+
+(* ... a Take that hits has no loader to hold ... *)
+Theorem cache_take_held_hit_is_take_first : forall c k f inner v,
+  alookup k (cdata c) = Some v ->
+  let '(c', r, rs) := c_take_held c k f inner in
+  c_run c (CTake k f :: inner) = r :: rs /\ c_final c (CTake k f :: inner) = c'.
+Proof. exact take_held_hit_is_take_first_proof. Qed.
+Print Assumptions cache_take_held_hit_is_take_first.
+
+(* ... and, after any prefix from the empty cache, all of it answers as the oldest-stamp
+   reference cache does on "prefix, inner, Take k" *)
+Theorem cache_take_held_answers_as_reference : forall limit pre k f inner,
+  let c := c_final (c_new limit) pre in
+  alookup k (cdata c) = None ->
+  Forall (fun o => cop_key o <> k) inner ->
+  let '(_, r, rs) := c_take_held c k f inner in
+  s_run (s_new limit) (pre ++ inner ++ [CTake k f]) = c_run (c_new limit) pre ++ rs ++ [r].
+Proof. exact take_held_answers_as_reference_proof. Qed.
+Print Assumptions cache_take_held_answers_as_reference.
+
+(* non-vacuity: limit 2, keys 2 and 3 held; Take 1 parked in its loader while key 257 is written
+   (evicting 2) and deleted again and 3 is read; then 1 is stored: held = {1, 3}, no reload *)
+Example ex_take_held :
+  let c := c_final (c_new 2) [CSet 2 20; CSet 3 30] in
+  let inner := [CSet 257 5; CDel 257; CGet 3] in
+  alookup 1 (cdata c) = None /\ Forall (fun o => cop_key o <> 1) inner /\
+  snd (c_take_held c 1 (Some 10) inner) = [OUnit; OUnit; OOpt (Some 30)] /\
+  snd (fst (c_take_held c 1 (Some 10) inner)) = OTake (Some 10) true /\
+  cc_run (fst (fst (c_take_held c 1 (Some 10) inner))) [CHeld; CC (CTake 1 (Some 99))] =
+    [OList [1; 3]; OTake (Some 10) false].
+Proof. vm_compute. repeat split; repeat constructor; discriminate. Qed.
 
 (* ------------------------------------------------------------------ *)
 (* Cache composed with C12's timing wheel (C16/ModelW.v): expiry is the wheel's own
